@@ -97,6 +97,15 @@ def _create_calls(fi):
     return out
 
 
+def _unnot(gs):
+    out = []
+    for t, pol in gs:
+        while isinstance(t, ast.UnaryOp) and isinstance(t.op, ast.Not):
+            t, pol = t.operand, not pol
+        out.append((t, pol))
+    return out
+
+
 def r05c(ctx, repo):
     ctx.rule("R05c", "link kind follows the duration group: TimedLink.create only under a test that the destination belongs to the source's duration group, Link.create otherwise; flush link asserted not to be a TimedLink")
     # TimedCompartment.connect
@@ -113,18 +122,27 @@ def r05c(ctx, repo):
         disj = test.values if isinstance(test, ast.BoolOp) and isinstance(test.op, ast.Or) else [test]
 
         def one(d):
-            for x in ast.walk(d):
+            conj = d.values if isinstance(d, ast.BoolOp) and isinstance(d.op, ast.And) else [d]
+            found = False
+            for x in conj:
+                if isinstance(x, ast.Call) and astq.is_name(x.func, "isinstance") and astq.is_name(x.args[0], dest):
+                    continue
                 if isinstance(x, ast.Compare) and len(x.ops) == 1 and isinstance(x.ops[0], ast.Eq):
                     l, r = ast.unparse(x.left), ast.unparse(x.comparators[0])
+                    ok = False
                     for a, b in ((l, r), (r, l)):
                         if a.startswith(dest + ".") and (a.endswith(".parameter.name") or a.endswith(".duration_group")) and b.startswith(me + ".") and (b.endswith(".parameter.name") or b.endswith(".duration_group")):
-                            return True
-            return False
+                            ok = True
+                    if ok:
+                        found = True
+                        continue
+                return False  # a conjunct that is neither the kind test nor the group comparison (a negation, another condition ...)
+            return found
 
         return all(one(d) for d in disj)
 
-    ctx.check(bool(timed) and all(any(pol and group_test(t) for t, pol in guards_of(c)) for c in timed), "R05c", fi, enclosing_stmt(timed[0]) if timed else fi.node, "TimedLink only into the same duration group", "TimedCompartment.connect creates a TimedLink without testing that the destination is in the same duration group: elapsed time is carried into an unrelated compartment" if timed else "TimedCompartment.connect never creates a TimedLink: moves inside a duration group restart the clock")
-    ctx.check(bool(plain) and all(any((not pol) and group_test(t) for t, pol in guards_of(c)) for c in plain), "R05c", fi, enclosing_stmt(plain[0]) if plain else fi.node, "plain Link to every other destination", "TimedCompartment.connect does not create a plain Link for destinations outside the duration group")
+    ctx.check(bool(timed) and all(any(pol and group_test(t) for t, pol in _unnot(guards_of(c))) for c in timed), "R05c", fi, enclosing_stmt(timed[0]) if timed else fi.node, "TimedLink only into the same duration group", "TimedCompartment.connect creates a TimedLink without testing that the destination is in the same duration group: elapsed time is carried into an unrelated compartment" if timed else "TimedCompartment.connect never creates a TimedLink: moves inside a duration group restart the clock")
+    ctx.check(bool(plain) and all(any((not pol) and group_test(t) for t, pol in _unnot(guards_of(c))) for c in plain), "R05c", fi, enclosing_stmt(plain[0]) if plain else fi.node, "plain Link to every other destination", "TimedCompartment.connect does not create a plain Link for destinations outside the duration group")
     fl = [s for s, t, k, v in astq.stores(fi.node) if k == "assign" and ast.unparse(t) == "%s.flush_link" % me]
     ctx.require(fl, "R05c: flush_link assignment not found in TimedCompartment.connect")
     cfg = K.cfg(repo, fi)
